@@ -25,8 +25,7 @@ variant makes each generator one atomic step, i.e. the sequential theorems apply
 -/
 import LinVerif.Model.IdAssignCfg
 import LinVerif.Lemmas.C09Kv
-import LinVerif.Lemmas.C09Run
-import LinVerif.Lemmas.C09Index
+import LinVerif.Lemmas.C09Hist
 
 namespace LinVerif.Props.C09
 open LinVerif.IdAssign LinVerif.Generated
@@ -104,78 +103,10 @@ theorem gen_series_order_tie :
 
 /-! ## Sequential histories -/
 
-/-- the ops of one run of the node: no reopen / crash, and no series refused by the series limit -/
-def epochOk (c : Cfg) : Node → List Op → Prop
-  | _, [] => True
-  | nd, op :: rest => op.isRecover = false ∧ (step c nd op).2 ≠ some .tooManySeries ∧ epochOk c (step c nd op).1 rest
-
-instance epochOkDec (c : Cfg) : ∀ (nd : Node) (ops : List Op), Decidable (epochOk c nd ops)
-  | _, [] => isTrue trivial
-  | nd, op :: rest =>
-    have := epochOkDec c (step c nd op).1 rest
-    inferInstanceAs (Decidable (op.isRecover = false ∧ (step c nd op).2 ≠ some .tooManySeries ∧ epochOk c (step c nd op).1 rest))
-
-/-- any history (reopen / crashes included) in which no series is refused by the series limit -/
-def historyOk (c : Cfg) : Node → List Op → Prop
-  | _, [] => True
-  | nd, op :: rest => (step c nd op).2 ≠ some .tooManySeries ∧ historyOk c (step c nd op).1 rest
-
-/-- the answers of the get-or-create calls of a history: (name, id) -/
-def observations (c : Cfg) : Node → List Op → List (NameKey × Nat)
-  | _, [] => []
-  | nd, op :: rest =>
-    (match op.key, (step c nd op).2 with
-      | some k, some (.id i) => [(k, i)]
-      | _, _ => []) ++ observations c (step c nd op).1 rest
-
-theorem invariant_run (c : Cfg) (ops : List Op) : ∀ nd, NodeInv nd → historyOk c nd ops → NodeInv (run c nd ops) := by
-  induction ops with
-  | nil => intro nd inv _; exact inv
-  | cons op rest ih =>
-    intro nd inv hh
-    obtain ⟨h1, h2⟩ := hh
-    simp only [run]
-    apply ih _ _ h2
-    by_cases hr : op.isRecover = true
-    · exact (recover_step_spec c inv op hr).1
-    · exact (step_spec c inv op (by simpa using hr) h1).1
-
 /-- the invariant holds after every history from an empty node, crashes inside flushes included -/
 theorem invariant_reachable (c : Cfg) (lim : Limits) (n : Nat) (ops : List Op)
     (h : historyOk c { lim := lim, nShards := n } ops) : NodeInv (run c { lim := lim, nShards := n } ops) :=
   invariant_run c ops _ (nodeInv_init lim n) h
-
-/-- one run of the node: invariant at the end, views only grow, every answer is in the final view -/
-theorem epoch_final (c : Cfg) (ops : List Op) : ∀ nd, NodeInv nd → epochOk c nd ops →
-    NodeInv (run c nd ops) ∧ Mono nd (run c nd ops) ∧
-    ∀ k i, (k, i) ∈ observations c nd ops → (run c nd ops).view k = some i := by
-  induction ops with
-  | nil => intro nd inv _; exact ⟨inv, Mono.refl _, fun _ _ h => by cases h⟩
-  | cons op rest ih =>
-    intro nd inv hh
-    obtain ⟨hr, hno, hrest⟩ := hh
-    obtain ⟨i1, m1, r1, _⟩ := step_spec c inv op hr hno
-    obtain ⟨i2, m2, r2⟩ := ih _ i1 hrest
-    simp only [run]
-    refine ⟨i2, m1.trans m2, ?_⟩
-    intro k i hk
-    simp only [observations, List.mem_append] at hk
-    rcases hk with hk | hk
-    · apply m2
-      cases hkey : op.key with
-      | none => rw [hkey] at hk; cases hk
-      | some k0 =>
-        cases hout : (step c nd op).2 with
-        | none => rw [hkey, hout] at hk; cases hk
-        | some o =>
-          cases o with
-          | id j =>
-            rw [hkey, hout] at hk
-            simp at hk
-            rw [hk.1, hk.2]
-            exact r1 k0 j hkey hout
-          | tooManyFields | tooManyTags | tooManySeries | stuck => rw [hkey, hout] at hk; cases hk
-    · exact r2 k i hk
 
 /-- **stable** (sequential): within one run of the node every caller gets the same id for a name —
 across prepare-flush and flush, for all six kinds, in every code variant -/
@@ -222,15 +153,6 @@ theorem fresh_after_recover (c : Cfg) {nd : Node} (inv : NodeInv nd) (op : Op) (
   rw [hnew] at hused; cases hused
 
 /-! ### ids used by recovered index entries -/
-
-theorem tvStep_epoch (c : Cfg) (ops : List Op) : ∀ nd, NodeInv nd → epochOk c nd ops → TvStep nd (run c nd ops) := by
-  induction ops with
-  | nil => intro nd _ _; exact TvStep.refl _
-  | cons op rest ih =>
-    intro nd inv hh
-    obtain ⟨hr, hno, hrest⟩ := hh
-    simp only [run]
-    exact (tvStep_step c inv op hr).trans (ih _ (step_spec c inv op hr hno).1 hrest)
 
 /-- **fresh_after_recover_index_partial**: `nd0` is the node as it came up after reopen / crash recovery.
 UNDER THE HYPOTHESIS that every tag value id used by a recovered index entry (tag value → series,
@@ -320,11 +242,6 @@ def raceSchedule : List KAct :=
 def raceFlushSchedule : List KAct :=
   [.call 0 7, .call 0 7, .thread 0, .thread 0, .thread 1, .thread 1, .thread 1, .prepare, .commit, .finish, .thread 0]
 
-theorem not_stable_of_two_ids {s : KSys} {b n i j : Nat} (h : s.threads = [⟨b, n, .done i⟩, ⟨b, n, .done j⟩]) (hij : i ≠ j) :
-    ¬ KStable s := by
-  intro st
-  exact hij (st ⟨b, n, .done i⟩ (by rw [h]; simp) ⟨b, n, .done j⟩ (by rw [h]; simp) i j rfl rfl rfl rfl)
-
 /-- the CURRENT code (`createValue` does not look again): one name, two ids -/
 theorem stable_concurrent_noRecheck : ∃ s, KReach .noRecheck { store := {}, ctr := 0 } s ∧ ¬ KStable s :=
   ⟨_, kexec_reach .noRecheck _ raceSchedule,
@@ -385,6 +302,38 @@ theorem fresh_after_recover_index_repaired :
   decide
 
 end Neg
+
+/-- what the property says about the index-entry part of `fresh_after_recover`, per variant of
+`Sequence.Gen*Seq` (does an allocation store the counter into the mmap page?) -/
+def IndexVerdict : Bool → Prop
+  | true => ∀ c : Cfg, c.seqWriteThrough = true → ∀ lim n ops, historyOk c { lim := lim, nShards := n } ops →
+      IdxTvBelow (run c { lim := lim, nShards := n } ops) (run c { lim := lim, nShards := n } ops).seqMem.tagValue
+  | false => ∃ ops, ¬ IdxTvBelow (run {} ({} : Node) ops) (run {} ({} : Node) ops).seqMem.tagValue
+
+/-- **index_verdict**: decided for the variant /repo has now -/
+theorem index_verdict : IndexVerdict currentCfg.seqWriteThrough := by
+  cases h : currentCfg.seqWriteThrough with
+  | true => exact fun c hc lim n ops hh => index_ids_synced_writeThrough c hc lim n ops hh
+  | false => exact ⟨Neg.unsyncedHistory, Neg.fresh_after_recover_index.2.2.2⟩
+
+/-- the repaired schema generators ignore the schema pointer read before the lock: whatever a caller
+saw outside the lock, the locked part works on a lookup made under the lock — each generator is one
+atomic step, and the interleavings of generators are the sequential histories of `stable` / `injective` -/
+theorem schema_locked_ignores_snapshot (s : SchemaStore) (m : Nat) (p p' : SPtr) :
+    lockedPtr .lookupLocked s m p = lockedPtr .lookupLocked s m p' := rfl
+
+/-- what the schedule "A reads the schema, B runs, A continues" does, per variant of the generators -/
+def SchemaVerdict : SchemaVariant → Prop
+  | .lookupLocked => ∀ s m p p', lockedPtr .lookupLocked s m p = lockedPtr .lookupLocked s m p'
+  | .snapshotOutside =>
+    ((tagKeyRace .snapshotOutside {} {} 0 5 1 1).2.2.1 ≠ (tagKeyRace .snapshotOutside {} {} 0 5 1 1).2.2.2) ∧
+    ((fieldRace .snapshotOutside {} {} 5 1 2).2.1 = (fieldRace .snapshotOutside {} {} 5 1 2).2.2)
+
+/-- **schema_verdict**: decided for the variant /repo has now -/
+theorem schema_verdict : SchemaVerdict currentCfg.schema := by
+  cases h : currentCfg.schema with
+  | lookupLocked => exact schema_locked_ignores_snapshot
+  | snapshotOutside => exact ⟨by decide, by decide⟩
 
 theorem kv_verdict_all : ∀ v, KvVerdict v
   | .recheckFull => fun _ _ h0 r => ⟨stable_concurrent h0 r, injective_concurrent h0 r⟩
